@@ -498,6 +498,15 @@ class MessageManager(ClientLike):
 
         # Read Data Section
         data_size = self.header.num_data_bytes
+        if data_size < 0 or data_size > len(self.data_buffer):
+            # Impossible payload length: drop the sender instead of passing it to recv_into
+            mod = self.modules[sock]
+            self.remove_module(mod)
+            self.logger.warning(
+                f"DROPPING - {mod!s} - Invalid num_data_bytes ({data_size}) in message header."
+            )
+            return False
+
         if data_size:
             nbytes = sock.recv_into(self.data_buffer, data_size, socket.MSG_WAITALL)
 
